@@ -35,7 +35,7 @@ JSB = [('magic', 0, 4), ('blocktype', 4, 4), ('blocksize', 12, 4), ('maxlen', 16
 
 POINTER_FIELDS = {'file_acl', 'iblock0', 'iblock1', 'iblock2', 'iblock3', 'iblock5', 'iblock12', 'iblock13', 'iblock14', 'start_lo', 'leaf_lo', 'block_bitmap', 'inode_bitmap', 'inode_table'}
 CLASSES = ['sb', 'gd', 'bbitmap', 'ibitmap', 'inode', 'extent', 'ind', 'dirent', 'dx', 'xattr', 'special', 'jsb', 'bytes', 'blockop']
-KINDS = ['zero', 'ones', 'inc', 'dec', 'bitflip', 'random', 'swap', 'other_block', 'meta_block', 'out_of_range', 'small']
+KINDS = ['zero', 'ones', 'inc', 'dec', 'bitflip', 'random', 'swap', 'other_block', 'meta_block', 'out_of_range', 'small', 'wrap']
 SUMMARY_CLASSES = ['bbitmap', 'ibitmap', 'gd_counts', 'gd_flags', 'csum_field']
 
 class Img:
@@ -200,6 +200,9 @@ def _mutate_value(old, size, kind, val, img, rnd_other=None):
         # boundary values first: the first invalid block number (== blocks_count), one past it, then further out / all ones
         b = img.fs.blocks
         return [b, b + 1, b + val % 1000, mask, b + (val * 7919) % (1 << 20)][val % 5] & mask
+    if k == 'wrap':
+        # values that make 'offset + length' sums wrap around: just below 2^N and just above 2^(N-1)
+        return [mask - val % 4096, mask - 3 - val % 64, (mask >> 1) + 1 + val % 4096, mask - val % 70000][val % 4] & mask
     return old
 
 def _field(img, base, fields, field, kind, val, sibling_base=None):
@@ -341,7 +344,9 @@ def _apply_one(img, cls, obj, field, kind, val, fixup):
             else:
                 ents = e4ref.xattr_entries(img.rd(base, bs), 32, 0, bs)
                 if not ents: return None
-                e = ents[field % len(ents)]; n, o, v = _field(img, base + e['off'], XENT, val // 5, kind, val)
+                # 'wrap' values only make sense for sizes and offsets: aim them at e_value_size / e_value_offs
+                fi = [4, 2, 4][(val // 5) % 3] if KINDS[kind % len(KINDS)] == 'wrap' else val // 5
+                e = ents[field % len(ents)]; n, o, v = _field(img, base + e['off'], XENT, fi, kind, val)
             if fixup: img.fix_xattr_block(x)
             return 'xattr blk %d .%s %#x->%#x%s' % (x, n, o, v, ' +csum' if fixup else '')
         off = img.ino_off(x); raw = img.rd(off, fs.isize); extra = struct.unpack_from('<H', raw, 0x80)[0]; b0 = 128 + extra + 4
